@@ -37,7 +37,7 @@ def gen_history(seed, tier="quick", zoo_filter=None, faults_on=True):
     rng, nprng = core.rngs(seed)
     variants = zoo.variants()
     if zoo_filter:
-        variants = [v for v in variants if v["zoo"] in zoo_filter]
+        variants = [v for v in variants + [{"zoo": "Z0"}] if v["zoo"] in zoo_filter]
     spec = dict(rng.choice(variants))
     spec["mode"] = rng.choice(["fwd", "rev"])
     if spec["zoo"] in ("Z10", "Z7"):
